@@ -392,16 +392,31 @@ def replay_case(ctx, v):
 
     case = v["case"]
     call, culprit = case["call"], case.get("culprit")
+    if v["label"] == "caller-arguments-mutated":
+        guard = []
+        C.execute(call, {}, guard)
+        for m in guard:
+            ctx.violation({"call": m["call"]}, {"settings": m["settings_after"], "languages": m["languages_after"]},
+                          {"settings": m["settings_before"], "languages": m["languages_before"]},
+                          "caller-arguments-mutated", v.get("features"))
+        return
     srv = C.ForkServer(0)
     try:
         rc = C.ref_call(call)
         ref = srv.run([rc])[0]
+        seqs = []
         if culprit:
-            seq = [call, culprit, call] if call["api"] == "inst" else [culprit, call]
-        else:
-            seq = [call]
-        out = srv.run(seq)[-1]
+            seqs.append([call, culprit, call] if call["api"] == "inst" else [culprit, call])
+        # the recorded tail of the history (ids of the tier's deterministic pool), ending with the call itself
+        pool = {c["id"]: c for c in C.build_pool(v.get("tier", "quick"))}
+        tail = [pool[i] for i in case.get("history_tail", [])[:-1] if i in pool]
+        if tail:
+            seqs.append(([call] if call["api"] == "inst" else []) + tail + [call])
+        seqs.append([call])
+        for seq in seqs:
+            out = srv.run(seq)[-1]
+            if not C.same_outcome(out, ref):
+                ctx.violation(case, out, ref, v["label"], v.get("features"))
+                return
     finally:
         srv.close()
-    if not C.same_outcome(out, ref):
-        ctx.violation(case, out, ref, v["label"], v.get("features"))
